@@ -172,6 +172,9 @@ func (b *Buffer) SetCleanerConfig(config CleanerConfig) error {
 	// so replacing it here would race with every other method call
 	*b.cleaner = config
 
+	// the state the cleaner decides on has changed: have it re-checked, like any other change
+	b.cond.Broadcast()
+
 	return nil
 }
 
